@@ -886,6 +886,30 @@ pre_attrs! { fn c01_pre_break_end() {
     }
 }}
 
+/// the token pass `eval` uses (preprocess_simple) drops only comments and whitespace: a directive -- `.end` included
+/// -- and whatever follows it stay in the stream, so that parse_simple's "exactly one instruction, nothing after it"
+/// check sees them (token kinds and order concrete -- symbolic kinds through the pass are intractable --, offsets symbolic)
+pre_attrs! { fn c15_pre_simple_keeps_everything() {
+    let o: usize = kani::any();
+    kani::assume(o < 1000);
+    queue([Some(Token::new(TokenKind::Label, span_of(o, 1))), Some(Token::new(TokenKind::Whitespace, span_of(o + 1, 1))),
+           Some(Token::new(TokenKind::Dir(DirKind::End), span_of(o + 2, 4))), Some(Token::new(TokenKind::Label, span_of(o + 7, 1)))]);
+    match preprocess_simple("a .end b") {
+        Ok(toks) => {
+            assert!(toks.len() == 3, "the eval token pass drops tokens other than comments and whitespace");
+            assert!(toks[0].kind == TokenKind::Label && toks[1].kind == TokenKind::Dir(DirKind::End) && toks[2].kind == TokenKind::Label,
+                    "the eval token pass reorders or rewrites tokens");
+            assert!(toks[2].span.offs() == o + 7);
+            kani::cover!(o == 5);
+            core::mem::forget(toks);
+        }
+        Err(e) => {
+            core::mem::forget(e);
+            assert!(false, "the eval token pass fails on well-formed tokens");
+        }
+    }
+}}
+
 // ------------------------------------------------------------------ unescape() alone (the .stringz text -> characters step)
 // (.stringz through preprocess() did not finish in 90 min even on a concrete 6-byte literal; the escape
 // processing itself is decided here on concrete literals -- the loop that turns the characters into words is read)
